@@ -34,6 +34,7 @@ var _ net.Listener = (*GRPCServerMuxer)(nil)
 // unblocked when a knock is received for the matching stream ID.
 type GRPCServerMuxer struct {
 	addr   net.Addr
+	ln     net.Listener
 	logger hclog.Logger
 
 	sessionErrCh chan error
@@ -48,6 +49,7 @@ type GRPCServerMuxer struct {
 func NewGRPCServerMuxer(logger hclog.Logger, ln net.Listener) *GRPCServerMuxer {
 	m := &GRPCServerMuxer{
 		addr:   ln.Addr(),
+		ln:     ln,
 		logger: logger,
 
 		sessionErrCh: make(chan error),
@@ -144,6 +146,10 @@ func (m *GRPCServerMuxer) Addr() net.Addr {
 }
 
 func (m *GRPCServerMuxer) Close() error {
+	// Also close the listener the session was accepted from: it owns the
+	// plugin's main Unix socket file, which is otherwise never removed.
+	defer m.ln.Close()
+
 	session, err := m.session()
 	if err != nil {
 		return err
